@@ -617,7 +617,7 @@ def fit_dataset(seed, kind):
     y = 20.0 + 1.2 * np.clip(55 - T, 0, None) + 1.6 * np.clip(T - 68, 0, None)
     if kind in ("wdwe", "both"):
         y = y + np.where(idx.dayofweek >= 5, 15.0, 0.0)
-    if kind in ("season", "both"):
+    if kind in ("season", "both", "short-summer"):
         y = y + np.where(np.isin(idx.month, [6, 7, 8, 9]), 25.0, 0.0)
     if kind == "winter":
         y = y + np.where(np.isin(idx.month, [11, 12, 1, 2]), 18.0, 0.0)
@@ -625,6 +625,10 @@ def fit_dataset(seed, kind):
     df = pd.DataFrame({"temperature": T, "observed": y}, index=idx)
     if kind == "gappy":
         df = df[(idx.dayofweek < 5) | (idx.day <= 14)]
+    if kind == "short-summer":                      # only 20 days of June-September: summer cannot be modelled separately
+        summer = np.isin(idx.month, [6, 7, 8, 9])
+        keep = ~summer | (np.cumsum(summer) <= 20)
+        df = df[keep]
     return df
 
 
@@ -637,7 +641,10 @@ def fit_worker(job):
     from opendsm.eemeter.models.daily.model import DailyModel
     from opendsm.eemeter import DailyBaselineData
     from opendsm.eemeter.models.daily.utilities.ellipsoid_test import ellipsoid_split_filter
-    df = fit_dataset(seed, kind)
+    # kind "B<-A": a refit history - ONE model object is fitted on baseline A and then on baseline B; everything observed
+    # below is the state after the fit on B, and a new object fitted on B alone is recorded next to it
+    kind_b, _, kind_a = kind.partition("<-")
+    df = fit_dataset(seed, kind_b)
     res = {"seed": seed, "kind": kind, "settings": settings, "fit_error": None}
     bd = DailyBaselineData(df, is_electricity_data=True)
     try:
@@ -647,6 +654,21 @@ def fit_worker(job):
         return res
     res["season_map"] = [m.settings.season._num_dict[i] for i in range(1, 13)]
     res["week_map"] = [m.settings.weekday_weekend._num_dict[i] for i in range(1, 8)]
+    if kind_a:
+        try:
+            m.fit(DailyBaselineData(fit_dataset(seed, kind_a), is_electricity_data=True), ignore_disqualification=True)
+            res["prior"] = {"combinations": len(getattr(m, "combinations", []) or []), "selected": getattr(m, "best_combination", None)}
+        except Exception as e:  # noqa
+            res["prior"] = {"error": "%s: %s" % (type(e).__name__, e)}
+        try:
+            fresh = DailyModel(settings=settings)
+            fresh.fit(bd, ignore_disqualification=True)
+            res["fresh"] = {"combinations": list(fresh.combinations), "selected": fresh.best_combination,
+                            "criteria": [float(fresh._combination_selection_criteria(c)) for c in fresh.combinations],
+                            "error": {k: float(v) for k, v in fresh.error.items()},
+                            "submodels": sorted(fresh.params.submodels.keys())}
+        except Exception as e:  # noqa
+            res["fresh"] = {"fit_error": "%s: %s" % (type(e).__name__, e)}
     try:
         m.fit(bd, ignore_disqualification=True)
     except Exception as e:  # noqa
@@ -692,6 +714,7 @@ def fit_worker(job):
         res["gauss"] = [bool(g["summer"]), bool(g["shoulder"]), bool(g["winter"]), bool(g["weekday_weekend"])]
     else:
         res["gauss"] = None
+    res["error_table"] = {k: float(v) for k, v in m.error.items()}
     if res["fit_error"] is None:
         res["submodel_keys"] = list(m.params.submodels.keys())
         out = m.predict(bd, ignore_disqualification=True)
@@ -733,6 +756,10 @@ def launch_fits(run, only=None):
                         "split_selection": {"criteria": ["aic", "aicc", "caic", "sabic", "fpe", "rmse_adj", "r_squared_adj"][(k // 7) % 7]}}
         jobs.append((base + k, kind, settings))
     jobs.append((base + 400, "season", {"developer_mode": True, "silent_developer_mode": True, "split_selection": {"criteria": "caic"}}))
+    # refit histories: one object fitted on A, then on B whose admissible candidates differ (A lacks weekend days / B lacks summer days / ...)
+    histories = ["short-summer<-season", "both<-gappy", "gappy<-both", "season<-short-summer", "winter<-plain", "plain<-both"]
+    for k in range(run.n(2, 36)):
+        jobs.append((base + 600 + k // len(histories), histories[k % len(histories)], None))
     # maps with names outside the hard-wired ones, end to end and without developer mode (C13-F1, F2, F3)
     foreign = [("plain", {"season": {"july": "monsoon", "options": ["summer", "shoulder", "winter", "monsoon"]}}),
                ("wdwe", {"weekday_weekend": {"friday": "holiday", "options": ["weekday", "weekend", "holiday"]}}),
@@ -863,6 +890,28 @@ def stream_fits(run, info, only=None, handle=None):
                 res.get("crit_type"), sorted(res.get("components", {}))[:3]), "model": "not representable in Model/SelCrit.v"})
         best_terms.append(("(%s, %s)" % (coq_list(["(%s, %s)" % (coq_string(a), xr(b)) for a, b in table]),
                                         coq_opt(chosen, coq_string)), case))
+        if "<-" in res["kind"]:
+            run.dist("fit: refit history (B<-A)", res["kind"])
+            fr = res.get("fresh") or {}
+            sigr = {"call": "DailyModel.fit", "broken": "a re-fitted model differs from a new model fitted on the same baseline"}
+            def differs(what, a, b):
+                run.violation(dict(sigr, what=what),
+                              "C13 refit %s: after fitting baseline A (%s) the same object fitted on B has %s %r, a new object fitted on B has %r"
+                              % (res["kind"], res.get("prior"), what, a, b), case=case,
+                              observation={"refit": a, "fresh": b}, generator="c13.fit")
+            if "fit_error" in fr or res["fit_error"] is not None:
+                if (fr.get("fit_error") is None) != (res["fit_error"] is None):
+                    differs("fit outcome", res["fit_error"], fr.get("fit_error"))
+            else:
+                close = lambda x, y: (x != x and y != y) or abs(x - y) <= 1e-9 * max(1.0, abs(x), abs(y))
+                if combos != fr["combinations"]:
+                    differs("candidates", combos, fr["combinations"])
+                elif res["best_attr"] != fr["selected"] or sorted(res.get("submodel_keys", [])) != fr["submodels"]:
+                    differs("selected split", res["best_attr"], fr["selected"])
+                elif not all(close(a, b) for a, b in zip(res["criteria"], fr["criteria"])):
+                    differs("criteria", res["criteria"], fr["criteria"])
+                elif not all(close(res["error_table"][k], fr["error"][k]) for k in fr["error"]):
+                    differs("error table", res["error_table"], fr["error"])
         run.dist("fit: time zone", res.get("tz"))
         run.dist("fit: candidates", len(combos))
         run.dist("fit: selected", chosen)
@@ -1037,7 +1086,9 @@ def main():
         "generated split x 8 maps over all 731 local dates of 2023-2024 in 8 time zones (UTC-5 .. UTC+13) through DailyReportingData "
         "and DailyBaselineData (+ two non-partition documents); best: the real "
         "_best_combination on synthetic criteria tables (random / ties / NaN / +-inf); fit: real fits on synthetic meters "
-        "(+ three with season/weekday names outside the hard-wired ones, end to end; + non-default criteria); calendar: every day "
+        "(+ three with season/weekday names outside the hard-wired ones, end to end; + non-default criteria; + refit histories: one "
+        "object fitted on baseline A then on B with a different admissible candidate set, observed after B and compared with a new "
+        "object fitted on B: candidates, selection, criteria, error table); calendar: every day "
         "1970-2100; criterion: the real selection_criteria() for all ten criteria on random and edge inputs (N from 1, "
         "num_coeffs >= N-1, loss <= 0, TSS = 0, penalty multiplier 0), np.log / np.sqrt / ** on their own, and every "
         "criterion value recorded on the real fits recomputed by the model from the components' N / TSS / wSSE. "
